@@ -270,7 +270,12 @@ def grant_within_period(w, report):
         nxt = min(d.getTime() for d in reactor.getDelayedCalls())
         if nxt - t0 > 3.0 + 1e-9:
             break
-        reactor.advance(max(0.0, nxt - reactor.seconds()))
+        try:
+            reactor.advance(max(0.0, nxt - reactor.seconds()))
+        except Exception as e:  # noqa  (the real reactor would log it; the poll loop is dead)
+            report(f'C13/protocol-raises/{type(e).__name__}/poll',
+                   f'a poll of a waiting client raised {e!r} inside the server protocol')
+            return True
         if dawgie.context.db_lock:
             return True
     report('C13/waiter-starves-with-free-lock',
